@@ -365,6 +365,21 @@ def targeted():
     # found by this check
     T.append(("multi-rpt-any", "(defsrc a)\n(deflayer l0 (multi rpt-any))\n", [["d", A], ["t", 2], ["u", A], ["t", 2], ["d", A], ["t", 2]]))
     T.append(("tde-empty", "(defsrc a)\n(deflayer l0 (tap-dance-eager 50 ()))\n", [["d", A], ["t", 2]]))
+    # floods sized to the fixed-capacity buffers of the layout (keyberon/src/layout.rs:48-86): every push past the
+    # capacity must be ignored or wrap
+    T.append(("cap-states-64", "(defsrc a)\n(deflayer l0 a)\n", ([["d", A]] * 30 + [["t", 40]]) * 3 + [["u", A], ["t", 5]]))
+    T.append(("cap-oneshot-16", "(defsrc a b)\n(deflayer l0 (one-shot 2000 lsft) (one-shot 2000 lctl))\n",
+              [["d", A], ["t", 2], ["d", B], ["t", 2]] * 12 + [["u", A], ["u", B], ["t", 3000]]))
+    ks10 = "a b c d e f g h i j".split()
+    T.append(("cap-extra-waiting-8", "(defcfg concurrent-tap-hold yes)\n(defsrc %s)\n(deflayer l0 %s)\n" % (
+        " ".join(ks10), " ".join("(tap-hold 500 500 x y)" for _ in ks10)),
+        sum(([["d", c], ["t", 2]] for c in _codes(ks10)), []) + [["t", 600]] + [["u", c] for c in _codes(ks10)] + [["t", 10]]))
+    T.append(("cap-action-queue-8", "(defsrc a)\n(deflayer l0 (switch %s))\n" % " ".join("() %s fallthrough" % k for k in ks10),
+              [["d", A], ["t", 20], ["u", A], ["t", 20]] * 2))
+    T.append(("cap-active-sequences", "(defsrc a b)\n(deflayer l0 (macro x 200 y) (macro-repeat z 100 w))\n",
+              [["p", A], ["p", B], ["t", 1]] * 8 + [["d", B], ["t", 1500], ["u", B], ["t", 500]]))
+    T.append(("cap-queue-32", "(defsrc a b)\n(deflayer l0 (tap-hold 500 500 x y) b)\n",
+              [["d", A]] + [["p", B]] * 40 + [["t", 600], ["u", A], ["t", 100]]))
     # suspected: more than 16 virtual-key events in the chords-v2 queue within one tick
     cfg = ("(defcfg concurrent-tap-hold yes)\n(defsrc a b)\n(deflayer l0 a b)\n(defvirtualkeys v0 x v1 y)\n"
            "(defchordsv2 (a b) x 50 all-released ())\n")
